@@ -189,7 +189,7 @@ func ruleC14(w *World, r *Report) {
 		}
 		r.check(good, "R14.3", w.FuncName(has2), "has2ndBit(f) ⇔ f&0x02 != 0 for all 256 values", w.Pos(has2.Pos()), "exhaustive evaluation of the extracted expression", "has2ndBit does not test bit 2 (SNDEM)")
 	}
-	var trueStores, falseStores, computedStores []*ssa.Store
+	var trueStores, falseStores, computedStores, orStores []*ssa.Store
 	allInstrs(parseFAR, func(i ssa.Instruction) {
 		st, ok := i.(*ssa.Store)
 		if !ok {
@@ -206,12 +206,27 @@ func ruleC14(w *World, r *Report) {
 		} else if c2, isCall := st.Val.(*ssa.Call); isCall && staticCallee(c2) == has2 && strings.Contains(symOf(c2.Call.Args[0]).String(), "PFCPSMReqFlags") {
 			// flag = has2ndBit(flags): sets and resets in one store
 			computedStores = append(computedStores, st)
+		} else if carryOrOfFlag(st, has2) {
+			// flag = flag || has2ndBit(flags) (either order): the same as `if has2ndBit(flags) { flag = true }`
+			orStores = append(orStores, st)
 		} else {
 			r.bad("R14.3", pname, "sendEndMarker assigned a non-constant", w.Pos(st.Pos()), "flag assigned from "+symOf(st.Val).String())
 		}
 	})
 	falseStores = append(falseStores, computedStores...)
-	r.check(len(trueStores)+len(computedStores) >= 1, "R14.3", pname, "the flag can be set (from the SNDEM bit)", w.Pos(parseFAR.Pos()), fmt.Sprintf("%d conditional + %d computed stores", len(trueStores), len(computedStores)), "parseFAR never sets sendEndMarker")
+	for _, st := range orStores {
+		st := st
+		reset := mustPass(parseFAR, nil, func(i ssa.Instruction) bool { return i == ssa.Instruction(st) }, func(i ssa.Instruction) bool {
+			for _, fs := range falseStores {
+				if i == ssa.Instruction(fs) {
+					return true
+				}
+			}
+			return false
+		})
+		r.check(reset == nil, "R14.3", pname, "sendEndMarker reset before flag = flag || SNDEM", w.Pos(st.Pos()), "a store of false precedes on every path", "flag is not reset before parsing")
+	}
+	r.check(len(trueStores)+len(computedStores)+len(orStores) >= 1, "R14.3", pname, "the flag can be set (from the SNDEM bit)", w.Pos(parseFAR.Pos()), fmt.Sprintf("%d conditional + %d computed stores", len(trueStores), len(computedStores)), "parseFAR never sets sendEndMarker")
 	for k, st := range trueStores {
 		guard := onlyVia(parseFAR, st, func(a, b *ssa.BasicBlock) bool {
 			v, truth, ok := boolEdge(a, b)
@@ -421,6 +436,18 @@ func ruleC14Scratch(w *World, r *Report) {
 					}
 				}
 			}
+			if isAl && !inLoop {
+				// declared outside the loop and zeroed at the top of every iteration: `f = far{}`
+				for _, ref := range *al.Referrers() {
+					st, ok := ref.(*ssa.Store)
+					if !ok || st.Addr != ssa.Value(al) {
+						continue
+					}
+					if k, isK := st.Val.(*ssa.Const); isK && k.Value == nil && instrDominates(st, call) && reachesBlock(call.Block(), st.Block()) {
+						inLoop = true
+					}
+				}
+			}
 			r.check(isAl && inLoop, "R14.3", hn, fmt.Sprintf("FAR IE #%d is parsed into a value of its own", n), w.Pos(call.Pos()), "scratch FAR declared inside the loop", "the FAR that receives the parsed IE lives across loop iterations: fields the next IE does not carry (send-end-marker flag, tunnel parameters) keep the previous IE's values")
 		}
 	}
@@ -597,7 +624,20 @@ func ruleC14More(w *World, r *Report) {
 				b := j.Block()
 				return b.Dominates(c.Block()) && b != c.Block() && reachesBlock(c.Block(), b) && j == b.Instrs[0] && blockIf(b) != nil
 			}
-			miss := reach(f, start, hdrOrRet, looksAtBit, nil)
+			// a path on which the flag is already set (flag || SNDEM) has nothing left to decide
+			alreadySet := func(a, b *ssa.BasicBlock) bool {
+				v, truth, ok := boolEdge(a, b)
+				if !ok || !truth {
+					return false
+				}
+				u, isLoad := v.(*ssa.UnOp)
+				if !isLoad || u.Op != token.MUL {
+					return false
+				}
+				fa, isFA := u.X.(*ssa.FieldAddr)
+				return isFA && fieldVar(fa) != nil && fieldVar(fa).Name() == "sendEndMarker"
+			}
+			miss := reach(f, start, hdrOrRet, looksAtBit, alreadySet)
 			if looksAtBit(start) {
 				miss = nil
 			}
@@ -645,4 +685,48 @@ func sameCell(a, b ssa.Value) bool {
 	ra, okA := a.(*ssa.Alloc)
 	rb, okB := b.(*ssa.Alloc)
 	return okA && okB && ra == rb
+}
+
+// carryOrOfFlag: the stored value is `flag || has2ndBit(PFCPSMReqFlags)` in either operand order: a φ whose
+// inputs are the SNDEM call, a load of the flag itself, or the constant true arriving over the true edge of
+// one of those two; the call must take part.
+func carryOrOfFlag(st *ssa.Store, has2 *ssa.Function) bool {
+	phi, ok := st.Val.(*ssa.Phi)
+	if !ok {
+		return false
+	}
+	isSNDEM := func(v ssa.Value) bool {
+		c, ok := v.(*ssa.Call)
+		return ok && staticCallee(c) == has2 && strings.Contains(symOf(c.Call.Args[0]).String(), "PFCPSMReqFlags")
+	}
+	isFlag := func(v ssa.Value) bool {
+		u, ok := v.(*ssa.UnOp)
+		if !ok || u.Op != token.MUL {
+			return false
+		}
+		fa, ok := u.X.(*ssa.FieldAddr)
+		return ok && fieldVar(fa) != nil && fieldVar(fa).Name() == "sendEndMarker"
+	}
+	sndem := false
+	for k, e := range phi.Edges {
+		switch {
+		case isSNDEM(e):
+			sndem = true
+		case isFlag(e):
+		default:
+			c, ok := e.(*ssa.Const)
+			if !ok || c.Value == nil || c.Value.String() != "true" {
+				return false
+			}
+			pred := phi.Block().Preds[k]
+			v, truth, ok := boolEdge(pred, phi.Block())
+			if !ok || !truth || !(isSNDEM(v) || isFlag(v)) {
+				return false
+			}
+			if isSNDEM(v) {
+				sndem = true
+			}
+		}
+	}
+	return sndem
 }
